@@ -203,6 +203,22 @@ CLAIMED = {
         "note": TRUSTED,
         "technique": "static analysis: operand provenance incl. closure-capture tracing, who-may-construct, dominance (rewind before read), arithmetic expression trees over MIR",
     },
+    "C07": {
+        "text": "Narrow static claim over the literal scanner (PrettyDecimal::from_str + closures), the grouped printer, try_find_char "
+                "and primitive::pretty_decimal.  Decided: every panic / overflow source there is guarded, tabled with checked support or a "
+                "finding; every integer cast is value preserving for all source values; no wrapping / saturating / overflowing "
+                "arithmetic in the scanner; the None of every checked_* step reaches ok_or(..)? and the Result of "
+                "Decimal::try_from_i128_with_scale is propagated, with value = sign * checked accumulator; the token parser maps the "
+                "consumed characters (digits , . -) through try_map(str::parse); and four necessary acceptance guards of the statement, "
+                "as placement rules on the scanner's state variables: the decimal-point transition is dominated by scale.is_none() (at "
+                "most one point) and reachable only through comma_pos.is_none() / == Some(i) (only after a complete group), a test of "
+                "comma_pos against s.len() that can reject lies on every path from the end of the loop to Ok (complete last group), "
+                "and so does a test of a flag set only on the digit arm (at least one digit).  The rest of the accepted language and "
+                "the value function of the state machine are not decided (DESIGN.md section 6.1).",
+        "design_ref": "DESIGN.md §4 C07, §6.1",
+        "note": TRUSTED,
+        "technique": "static analysis: MIR panic-surface enumeration restricted to the scanner, cast-range check, Option/Result consumption flow, must-pass / dominance rules on the scanner's state variables",
+    },
 }
 
 _WIP = "check not built yet in this session (design: DESIGN.md §4); not claimed until it is"
